@@ -80,3 +80,14 @@ Theorem C07_compile_depends_on_answers_only :
   perform_compile_stack_x fuel e u inputs cons rc md ob_all ob extras = perform_compile_stack_x fuel e u' inputs cons rc md ob_all ob extras.
 Proof. exact perform_compile_congr. Qed.
 Print Assumptions C07_compile_depends_on_answers_only.
+
+(* Project-name equivalence against its specification (the chain is read from utils.normalize_project_name on every
+   run): letter case and the separators '-', '_', '.' do not distinguish projects - norm distributes over
+   concatenation and gives the three separators, and both cases of every letter, one image. *)
+From RC Require Import proofs.NameSpecP.
+Theorem C07_names_differing_in_separators_or_case_are_one_project :
+  (forall pre post s1 s2, In s1 ["-"%string; "_"%string; "."%string] -> In s2 ["-"%string; "_"%string; "."%string] ->
+     norm (pre ++ s1 ++ post) = norm (pre ++ s2 ++ post)) /\
+  norm "ABCDEFGHIJKLMNOPQRSTUVWXYZ" = norm "abcdefghijklmnopqrstuvwxyz".
+Proof. split; [exact norm_respelled_separator|exact (proj2 (proj2 norm_separators_and_case))]. Qed.
+Print Assumptions C07_names_differing_in_separators_or_case_are_one_project.
